@@ -37,6 +37,20 @@ for d in sorted(glob.glob(os.path.join(ROOT, "seeded", "*"))):
     det = "yes" if m.get("check_detects") else "NO (see 15.3)"
     if m.get("detected_after_strengthening"): det = "yes, after strengthening: " + m["detected_after_strengthening"]
     out.append("| %s | %s | %s | %s | %s |" % (os.path.basename(d), m["property"], esc((m.get("breaks") or "")[:300]), esc((m.get("needs") or "")[:200]), det))
+missed = []
+for d in sorted(glob.glob(os.path.join(ROOT, "seeded", "*"))):
+    mp = os.path.join(d, "meta.json")
+    if os.path.exists(mp):
+        m = json.load(open(mp))
+        if m.get("first_run_missed"):
+            missed.append((os.path.basename(d), m))
+out.append("\n### 15.2b Seeds missed by the first version of a check, and the strengthening that made it detect them\n")
+out.append("| seed | detected now | what was added to the check |\n|---|---|---|")
+for name, m in missed:
+    out.append("| %s | %s | %s |" % (name, "yes" if m.get("check_detects") else "NO", esc(m.get("detected_after_strengthening", "–"))))
+tot = len(glob.glob(os.path.join(ROOT, "seeded", "*", "meta.json")))
+det = sum(1 for f in glob.glob(os.path.join(ROOT, "seeded", "*", "meta.json")) if json.load(open(f)).get("check_detects"))
+out.append("\n%d seeded changes in total (two independent waves, one and then a second, different-in-nature change per property); %d detected, %d of them only after the check was strengthened.\n" % (tot, det, len(missed)))
 txt = "\n".join(out) + "\n"
 p = os.path.join(ROOT, "DESIGN.md")
 s = open(p).read()
